@@ -185,7 +185,7 @@ def recorded_cases(chk, fi: FuncInfo, recs, fold, label_of):
 def check_pair_loop(chk, fi: FuncInfo, loop: ast.For, sites: c03e.Sites, c: Dict[str, Any], fold, label_of, eq_fields) -> str:
     """Returns the name of the list the triples are recorded in."""
     paths = SX.Executor(nonnull=sites.nonnull, rewrite=sites.rewrite, helpers=c03e.new_helpers(chk.repo, fi)).run(loop.body, c03e.constant_tuples(fi, loop))
-    stores = sorted({e.recv for p in paths for e in p.effects if e.kind == "call" and e.method == "append" and e.recv in sites.nonnull})
+    stores = sorted({e.recv for p in paths for e in p.effects if e.kind == "call" and e.method in ("append", "add") and e.recv in sites.nonnull})
     if len(stores) != 1:
         raise NotReadable(f"the stacking loop appends to {stores}, expected one list of triples")
     store = stores[0]
@@ -196,7 +196,7 @@ def check_pair_loop(chk, fi: FuncInfo, loop: ast.For, sites: c03e.Sites, c: Dict
     for side in c03e.SIDES:
         chk.ok("stack-roles", fi.site(loop), f"residue_{side} = the residue whose centroid is point {sites.idx[c03e.SIDES.index(side)]} of the query pair; normal_{side} = its base_normal_vector (read after substitution)")
         chk.ok("stack-roles", fi.site(loop), f"point_{side} = the centroid registered for that residue")
-    recs = [(p, e) for p in paths for e in p.effects if e.recv == store and e.method == "append"]
+    recs = [(p, e) for p in paths for e in p.effects if e.recv == store and e.method in ("append", "add")]
     if not recs:
         chk.violation("stack-labels", fi.site(loop), "no path through the stacking loop records a pair", K(fi, "no-record"))
         return store
@@ -406,10 +406,10 @@ def check_registration(chk, fi: FuncInfo, sites: c03e.Sites) -> None:
 def check_orientation(chk, fi: FuncInfo, loop: ast.For, sites: c03e.Sites, fold, label_of, rule: str = "stack-orientation") -> None:
     """C11: every recorded stacking names the lower residue first (the later sorted() orders the list, it does not re-orient a pair)."""
     paths = SX.Executor(nonnull=sites.nonnull, rewrite=sites.rewrite, helpers=c03e.new_helpers(chk.repo, fi)).run(loop.body, c03e.constant_tuples(fi, loop))
-    stores = sorted({e.recv for p in paths for e in p.effects if e.kind == "call" and e.method == "append" and e.recv in sites.nonnull})
+    stores = sorted({e.recv for p in paths for e in p.effects if e.kind == "call" and e.method in ("append", "add") and e.recv in sites.nonnull})
     if len(stores) != 1:
         raise NotReadable(f"the stacking loop appends to {stores}, expected one list of triples")
-    recs = [(p, e) for p in paths for e in p.effects if e.recv == stores[0] and e.method == "append"]
+    recs = [(p, e) for p in paths for e in p.effects if e.recv == stores[0] and e.method in ("append", "add")]
     cases, problems, undirected = recorded_cases(chk, fi, recs, fold, label_of)
     if problems or len(cases) != 4 or any(None in v[:2] for v in cases.values()):
         chk.error(rule, fi.site(loop), "; ".join(problems[:2]) or "recorded stacking not evaluable in some (order, direction) case")
@@ -495,3 +495,67 @@ def _class_table(repo, attr: str) -> Dict[str, List[str]]:
         return {k: sorted(x) for k, x in v.items()} if isinstance(v, dict) else {}
     except Exception:
         return {}
+
+
+_CACHING = ("cached_property", "cache", "lru_cache")
+_MUTABLE_ANN = ("List", "Dict", "Set", "list", "dict", "set", "MutableSequence", "MutableMapping", "DefaultDict", "Deque")
+
+
+def stale_members(repo, module: str, cls: str) -> Dict[str, str]:
+    """Members of a class whose value is fixed at first access although the state they are computed from can change afterwards:
+    the class is not frozen, the member is memoised on the instance (`cached_property`, `cache`, `lru_cache`) and its body reads a
+    field annotated as a mutable container.  Uncached properties/methods that read such a member inherit the defect.
+    member -> explanation."""
+    c = repo.modules[module].classes.get(cls)
+    if c is None:
+        return {}
+    for d in c.decorator_list:
+        if isinstance(d, ast.Call) and any(k.arg == "frozen" and isinstance(k.value, ast.Constant) and k.value.value is True for k in d.keywords):
+            return {}
+    mutable = {b.target.id for b in c.body if isinstance(b, ast.AnnAssign) and isinstance(b.target, ast.Name) and norm(b.annotation).split("[")[0].split(".")[-1] in _MUTABLE_ANN}
+    if not mutable:
+        return {}
+    funcs = {b.name: b for b in c.body if isinstance(b, ast.FunctionDef)}
+
+    def self_reads(f: ast.FunctionDef) -> Set[str]:
+        me = f.args.args[0].arg if f.args.args else "self"
+        return {n.attr for n in ast.walk(f) if isinstance(n, ast.Attribute) and isinstance(n.value, ast.Name) and n.value.id == me}
+
+    out: Dict[str, str] = {}
+    for name, f in funcs.items():
+        decs = {norm(d.func if isinstance(d, ast.Call) else d).split(".")[-1] for d in f.decorator_list}
+        hit = sorted(self_reads(f) & mutable)
+        if decs & set(_CACHING) and hit:
+            out[name] = f"`{cls}.{name}` is memoised on the instance ({sorted(decs & set(_CACHING))[0]}) but is computed from `self.{hit[0]}`, a mutable field of a class that is not frozen"
+    changed = True
+    while changed:
+        changed = False
+        for name, f in funcs.items():
+            if name in out:
+                continue
+            via = sorted(self_reads(f) & set(out))
+            if via:
+                out[name] = f"`{cls}.{name}` reads `self.{via[0]}`: {out[via[0]]}"
+                changed = True
+    return out
+
+
+def check_structure_state(chk, fi: FuncInfo, rule: str = "structure-state") -> None:
+    """The annotation is a function of the residues the structure holds *when the function is called*: every member of the
+    structure parameter the function reads must reflect the current residue list."""
+    if not fi.node.args.args:
+        return
+    param = fi.node.args.args[0].arg
+    stale = stale_members(chk.repo, "tertiary", "Structure3D")
+    used = sorted({n.attr for n in ast.walk(fi.node) if isinstance(n, ast.Attribute) and isinstance(n.value, ast.Name) and n.value.id == param})
+    bad = [a for a in used if a in stale]
+    site = next((n for n in ast.walk(fi.node) if isinstance(n, ast.Attribute) and isinstance(n.value, ast.Name) and n.value.id == param and n.attr in bad), fi.node)
+    chk.expect(
+        not bad,
+        rule,
+        fi.site(site),
+        f"the members of `{param}` that are read ({', '.join(used)}) reflect its current residues",
+        f"`{param}.{bad[0] if bad else ''}` is frozen at its first access: {stale.get(bad[0]) if bad else ''} - after the residue list is edited (residues filtered, added or replaced on the same object) the function keeps annotating the old residues",
+        K(fi, f"structure-state:{','.join(bad)}"),
+        found=bad,
+    )
